@@ -31,7 +31,10 @@ var collisionPairs = [][2][]byte{
 
 // KeyUniverse is the key set histories publish with: nil, empty, prefix-related keys and colliding keys.
 var KeyUniverse = [][]byte{nil, {}, []byte("a"), []byte("ab"), []byte("abc"), []byte("b"),
-	collisionPairs[0][0], collisionPairs[0][1], collisionPairs[1][0], collisionPairs[2][0]}
+	collisionPairs[0][0], collisionPairs[0][1], collisionPairs[1][0], collisionPairs[2][0], zeroHashKey}
+
+// zeroHashKey: the 64-bit FNV-1a hash of these eight bytes is exactly 0 - the zero value of every "current hash" variable.
+var zeroHashKey = hx("d56bb95342870836")
 
 // CollidingAbsent are never published but share a hash with a key that is.
 var CollidingAbsent = [][]byte{collisionPairs[1][1], collisionPairs[2][1]}
@@ -39,10 +42,13 @@ var CollidingAbsent = [][]byte{collisionPairs[1][1], collisionPairs[2][1]}
 // longKeys are published rarely: longer than a small buffer, than a page, and than 64 KiB (a 16-bit length would wrap).
 var longKeys = [][]byte{append([]byte("L"), pattern(299, 7)...), append([]byte("ML"), pattern(4998, 8)...), append([]byte("XL"), pattern(69998, 9)...)}
 
-var smallKeys = [][]byte{nil, []byte("a"), []byte("b"), collisionPairs[0][0], collisionPairs[0][1]}
+var smallKeys = [][]byte{nil, []byte("a"), []byte("b"), collisionPairs[0][0], collisionPairs[0][1], zeroHashKey}
 
 func init() {
 	// self-check of the precomputed collisions against hash/fnv and the hand-written reference
+	if RefFNV1a64(zeroHashKey) != 0 {
+		panic("zero-hash key is wrong")
+	}
 	for _, p := range collisionPairs {
 		a, b := fnv.New64a(), fnv.New64a()
 		a.Write(p[0])
@@ -455,6 +461,7 @@ func (e *Env) GenOp(t *rapid.T) Op {
 	case "reopen":
 		o := genOpts(t, e, e.Cfg, m.Mono, e.P)
 		op := Op{Kind: "reopen", Opts: &o, RmIdx: e.genRmIdx(t)}
+		op.CutIdx = len(op.RmIdx) > 0 && uni(t, 5, "cutidx") == 4 && !o.Check
 		if uni(t, 8, "cold") == 7 {
 			removed := map[string]bool{}
 			for _, n := range op.RmIdx {
@@ -532,7 +539,9 @@ func (e *Env) GenOp(t *rapid.T) Op {
 		}
 		return op
 	case "ro":
-		return Op{Kind: "ro", Handles: pick(t, []int{1, 1, 2, 3}, "handles"), RmIdx: e.genRmIdx(t)}
+		op := Op{Kind: "ro", Handles: pick(t, []int{1, 1, 2, 3}, "handles"), RmIdx: e.genRmIdx(t)}
+		op.CutIdx = len(op.RmIdx) > 0 && uni(t, 5, "cutidx") == 4
+		return op
 	}
 	panic("unknown kind " + kind)
 }
